@@ -260,6 +260,38 @@ theorem sum_cartesian_every_branch_float {a b : Geonum F} (ha : a.angle.Inv) (hb
           + (40 * ((a.angle.blade + b.angle.blade : ℕ) : ℝ) + 170) * (1 / 2 ^ 53))) + 1 / 10 ^ 28 + 2 * val (e10 : F) :=
   Geonum.sum_cartesian_every_branch_float ha hb hma hmb hcb
 
+/-- (B) **`a + b` and `b + a` are the same point in rounded arithmetic, in every branch**: their Cartesian components differ by at most
+    twice the every-branch bound (in the general branch the two results are even bit-identical: `C14.general_branch_angle_symmetric`) -/
+theorem sum_comm_cartesian_float {a b : Geonum F} (ha : a.angle.Inv) (hb : b.angle.Inv) (hma : a.MagDom) (hmb : b.MagDom)
+    (hcb : a.angle.blade + b.angle.blade ≤ 2 ^ 39) :
+    |val (a.add b).mag * Real.cos (Angle.Tpi (a.add b).angle) - val (b.add a).mag * Real.cos (Angle.Tpi (b.add a).angle)|
+      ≤ 2 * ((val a.mag + val b.mag) * (2 / 10 ^ 7 + 11 / 10 * (val (e10 : F)
+          + (40 * ((a.angle.blade + b.angle.blade : ℕ) : ℝ) + 170) * (1 / 2 ^ 53))) + 1 / 10 ^ 28 + 2 * val (e10 : F)) ∧
+    |val (a.add b).mag * Real.sin (Angle.Tpi (a.add b).angle) - val (b.add a).mag * Real.sin (Angle.Tpi (b.add a).angle)|
+      ≤ 2 * ((val a.mag + val b.mag) * (2 / 10 ^ 7 + 11 / 10 * (val (e10 : F)
+          + (40 * ((a.angle.blade + b.angle.blade : ℕ) : ℝ) + 170) * (1 / 2 ^ 53))) + 1 / 10 ^ 28 + 2 * val (e10 : F)) := by
+  obtain ⟨p1, p2⟩ := sum_cartesian_every_branch_float ha hb hma hmb hcb
+  obtain ⟨q1, q2⟩ := sum_cartesian_every_branch_float hb ha hmb hma (by omega)
+  have e1 : b.angle.blade + a.angle.blade = a.angle.blade + b.angle.blade := by omega
+  rw [e1, add_comm (val b.mag) (val a.mag)] at q1 q2
+  rw [abs_le] at p1 p2 q1 q2 ⊢
+  rw [abs_le]
+  constructor <;> constructor <;> linarith [p1.1, p1.2, p2.1, p2.2, q1.1, q1.2, q2.1, q2.2]
+
+/-- (B) **a zero-magnitude operand leaves the other's vector in place, in rounded arithmetic**, whatever its angle and whichever branch
+    `+` takes: the components of `a + z` are those of `a` within the every-branch bound -/
+theorem sum_zero_operand_float {a z : Geonum F} (ha : a.angle.Inv) (hz : z.angle.Inv) (hma : a.MagDom) (hmz : z.MagDom)
+    (hz0 : val z.mag = 0) (hcb : a.angle.blade + z.angle.blade ≤ 2 ^ 39) :
+    |val (a.add z).mag * Real.cos (Angle.Tpi (a.add z).angle) - val a.mag * Real.cos (Angle.Tpi a.angle)|
+      ≤ val a.mag * (2 / 10 ^ 7 + 11 / 10 * (val (e10 : F)
+          + (40 * ((a.angle.blade + z.angle.blade : ℕ) : ℝ) + 170) * (1 / 2 ^ 53))) + 1 / 10 ^ 28 + 2 * val (e10 : F) ∧
+    |val (a.add z).mag * Real.sin (Angle.Tpi (a.add z).angle) - val a.mag * Real.sin (Angle.Tpi a.angle)|
+      ≤ val a.mag * (2 / 10 ^ 7 + 11 / 10 * (val (e10 : F)
+          + (40 * ((a.angle.blade + z.angle.blade : ℕ) : ℝ) + 170) * (1 / 2 ^ 53))) + 1 / 10 ^ 28 + 2 * val (e10 : F) := by
+  obtain ⟨p1, p2⟩ := sum_cartesian_every_branch_float ha hz hma hmz hcb
+  rw [hz0, zero_mul, add_zero, add_zero] at p1 p2
+  exact ⟨p1, p2⟩
+
 /-- (B) **subtraction is the Cartesian difference in rounded arithmetic, in EVERY branch** of `a + (−b)` -/
 theorem diff_cartesian_every_branch_float {a b : Geonum F} (ha : a.angle.Inv) (hb : b.angle.Inv) (hma : a.MagDom) (hmb : b.MagDom)
     (hcb : a.angle.blade + b.angle.blade + 2 ≤ 2 ^ 39) :
